@@ -245,12 +245,12 @@ PROPS.update({
         "engines": [{"name": "net", "rule": NET_RULE},
                     {"name": "task", "rule": "see C13: real task handles driven sequentially incl. re-entrant wakes; the number of scheduled Runnables is compared after every operation (a lost or duplicated wake-up shows up as a missing or extra Runnable)"}],
         "assumptions": NET_ASSUME + [
-            "schedule-independence is proved for the multiset of handler invocations (paths in the unfolding tree as ghost data); PARTIAL: for sink outputs it is checked by comparing ST, MT (2-8 workers) and model runs, not proved",
+            "schedule-independence of the multisets of handler invocations and of sink outputs is proved over M-NET (paths in the unfolding tree as ghost data); the engine additionally compares ST, MT (2-8 workers) and model runs",
             "PARTIAL: the pool manager's idle detection / parking protocol of mt_executor is not modelled; seeded delays at executor protocol points are not available (no hook), the engine relies on repeated runs with different worker counts",
             "every mailbox has capacity >= 1 (enforced by Mailbox::with_capacity)"],
         "trusted_base": NET_TB + ["M-TASK hand-written; tied by the `task` engine"],
-        "explanation": "theorems ok_step_is_complete, never_stuck_with_nothing_queued, blocked_only_on_channels, handler_invocations_are_schedule_independent, completed_run_is_the_unfolding_tree, every_execution_has_a_ghost_extension, ok_iff_nothing_queued, woken_task_has_a_runnable",
-        "level_text": "Lean 4 theorems over M-NET for every interleaving: when the run returns Ok at quiescence no task is half-way, every mailbox is empty, every arrival has been processed and every model is initialised; a half-way task with nothing queued always has an enabled transition (no spurious stall), and a blocked task is blocked on a channel operation; any two completed executions of one program with the same driver requests have handled the same multiset of (model, payload) invocations - each is exactly the unfolding tree of the program, every node once (schedule independence, proved with event paths as ghost data); over M-TASK: a Runnable exists iff the state word says so (no lost wake-up); PARTIAL: schedule-independence of sink outputs and the executors' idle detection are checked by execution (ST vs MT vs model), not proved",
+        "explanation": "theorems ok_step_is_complete, never_stuck_with_nothing_queued, blocked_only_on_channels, handler_invocations_are_schedule_independent, sink_outputs_are_schedule_independent, completed_run_is_the_unfolding_tree, every_execution_has_a_ghost_extension, ok_iff_nothing_queued, woken_task_has_a_runnable",
+        "level_text": "Lean 4 theorems over M-NET for every interleaving: when the run returns Ok at quiescence no task is half-way, every mailbox is empty, every arrival has been processed and every model is initialised; a half-way task with nothing queued always has an enabled transition (no spurious stall), and a blocked task is blocked on a channel operation; any two completed executions of one program with the same driver requests have handled the same multiset of (model, payload) invocations and written the same multiset of (sink, payload) outputs - each is exactly the unfolding tree of the program, every node once (schedule independence, proved with event paths as ghost data); over M-TASK: a Runnable exists iff the state word says so (no lost wake-up); PARTIAL: the executors' idle detection / parking protocol is checked by execution (ST vs MT vs model), not proved",
         "level_note": NET_NOTE + "; PARTIAL as stated in the assumptions",
     },
     "C14": {
